@@ -4,21 +4,55 @@
 #ifndef SLEN
 #define SLEN 4
 #endif
-struct Inputs { unsigned char a[SLEN + 1]; unsigned char b[SLEN + 1]; };
+struct Inputs { unsigned char a[SLEN + 1]; unsigned char b[SLEN + 1]; uint64_t r[8]; };
 #ifndef V_REPLAY_INPUT_ONLY
 #include "Cello.h"
 V_DECLARE_INPUTS
 V_NO_THROW_EXPECTED
+#ifdef UFHASH
+/* hash_data as an UNINTERPRETED function (replace-calls): an arbitrary value per distinct (bytes, length), the same value
+ * for the same (bytes, length).  hash_data itself is decided against the reference MurmurHash64A in the hash_data.*
+ * obligations; what is decided here is what the String / Type Hash instances hand to it. */
+#define UFMAX 8
+static unsigned char uf_bytes[UFMAX][16]; static size_t uf_len[UFMAX]; static int uf_n = 0;
+uint64_t v_hash_data(const void* data, size_t len) {
+  V_ASSERT(len <= 16, "harness: hashed runs are short here");
+  const unsigned char* p = data;
+  for (int k = 0; k < UFMAX; k++) if (k < uf_n && uf_len[k] == len) { _Bool same = 1; for (size_t i = 0; i < 16; i++) if (i < len && uf_bytes[k][i] != p[i]) same = 0; if (same) return IN.r[k]; }
+  V_ASSERT(uf_n < UFMAX, "harness: enough slots for distinct hash arguments");
+  if (uf_n < UFMAX) { uf_len[uf_n] = len; for (size_t i = 0; i < 16; i++) if (i < len) uf_bytes[uf_n][i] = p[i]; uf_n++; return IN.r[uf_n - 1]; }
+  return 0;
+}
+#endif
+#ifdef EXACT
+/* strlen as String_Hash / String_Len see it (replace-calls): for the strings of this harness the length is the compile-time case
+ * EXACT, checked against the bytes; a concrete length lets the two hash computations fold into the same expression */
+static const char* twin_p = NULL;
+size_t v_strlen(const char* p) {
+  if (p == (const char*)IN.a || p == twin_p) { size_t n = 0; for (; n < SLEN + 1; n++) if (p[n] == 0) break; V_ASSERT(n == EXACT, "harness: the string has the length of this case"); return EXACT; }
+  size_t n = 0; while (p[n]) n++; return n;       /* every other string (type and class names): the ordinary definition */
+}
+#endif
 V_HARNESS {
   V_LOAD_INPUTS();
   V_ASSUME(IN.a[SLEN] == 0 && IN.b[SLEN] == 0);
+#ifdef EXACT    /* case split on the length of the first string: both hash computations then run over the same number of bytes */
+  for (int i = 0; i < SLEN; i++) { if (i < EXACT) V_ASSUME(IN.a[i] != 0); else V_ASSUME(IN.a[i] == 0); }
+#endif
   char twin[SLEN + 1];
   for (int i = 0; i <= SLEN; i++) twin[i] = (char)IN.a[i];
+#ifdef EXACT
+  twin_p = twin;
+#endif
   var sa = $S((char*)IN.a), st = $S(twin), sb = $S((char*)IN.b);
   uint64_t ha = hash(sa);
   V_WITNESS("string hash computed");
   V_ASSERT(eq(sa, st) && hash(st) == ha, "String: same characters at a different address are eq and hash the same");
+#ifdef EXACT
+  size_t n = EXACT;
+#else
   size_t n = 0; while (IN.a[n]) n++;
+#endif
   V_ASSERT(ha == hash_data(IN.a, n), "String: hash is hash_data over exactly the len characters (terminator excluded)");
 #ifdef LIGHT
   V_ASSERT(hash(Int) == hash_data("Int", 3) && hash(String) == hash_data("String", 6), "Type: hash is hash_data of the name");
